@@ -16,8 +16,9 @@
    handed-over block, NOREALLOC never moves the buffer, returned bytes = reference JPEG that
    decodes, worst-case probes fit in tj3JPEGBufSize (+ICC).
 The model also classifies histories: caller misuse (cb) and hazards (hz: address recycling,
-zero *jpegSize on reuse) are outside the proved theorem; hazard histories are the known
-findings and are replayed in separate processes.
+with the code before the zero-size fix also *jpegSize = 0 on reuse) are outside the proved
+theorem; the address-recycling history is the known finding and is replayed in separate
+processes; the F2 and zero-size histories are regression cases of the corpus.
 """
 import json
 import os
@@ -128,7 +129,7 @@ def gen_history(rng, mgr, ncalls, call_maker):
             have_buf = True
         else:                                             # pass the previous pointer again
             if last_ok_alloc and alloc and mgr != "ijg" and rng.chance(1, 3):
-                ops.append("Z %d" % rng.choice([1, 7, n, 10 * n + 5, 1 << 40]))   # "ignored" when reusing; never 0 here
+                ops.append("Z %d" % rng.choice([0, 0, 1, 7, n, 10 * n + 5, 1 << 40]))   # "ignored" when reusing
         ops.append(mk(alloc))
         have_buf = True if alloc else have_buf
         last_ok_alloc = bool(alloc)
@@ -445,11 +446,8 @@ def run(ctx):
         big = max(sized, key=lambda x: x[1])
         hz = [
             ("aba-buffer-reuse-overflow", "hist tj ; C 1 5 -10 ; F ; A 100 1 ; C 1 6 300"),
-            ("zero-size-reuse-overflow", "hist tj ; C 1 5 " + " ".join(["500"] * 10) + " ; Z 0 ; C 1 6 " + " ".join(["500"] * 10)),
             ("aba-buffer-reuse-overflow", "hist tjx ; J 1 %d %s ; F ; A 64 1 ; J 1 %d %s" % (small[1], spec_str(small[0]), small[1], spec_str(small[0]))),
         ]
-        if big[1] > 4096:
-            hz.append(("zero-size-reuse-overflow", "hist tjx ; J 1 %d %s ; Z 0 ; J 1 %d %s" % (big[1], spec_str(big[0]), big[1], spec_str(big[0]))))
         for sig, l in hz:
             ml = model_lines(ctx, drv, [l])
             predicted = bool(ml and re.search(r"ok=0 cb=0 hz=[1-9]", ml[0]) and re.search(r"bad=[1-9]", ml[0]))
@@ -473,7 +471,7 @@ def run(ctx):
     ctx.assume += ["malloc never fails (allocation failure is property C14); sizes stay below 2^63 (bufsize*2 does not wrap)",
                    "every chunk a real entropy encoder stores through LOAD_BUFFER/STORE_BUFFER is shorter than BUFSIZE=512 bytes (jchuff.c comment: <= 256 bytes before stuffing); "
                    "the model shows that a chunk of exactly 512 bytes would leave free_in_buffer = 0 without a dump",
-                   "theorems exclude address recycling by malloc and *jpegSize = 0 on reuse: both are replayed as findings on the implementation",
+                   "theorems exclude address recycling by malloc (a smaller caller block at the address of the previous result): replayed as a known finding on the implementation",
                    "correspondence is differential testing of the hand model against the real functions; it supports the tie, not the theorem"]
     ctx.trusted += ["harness/c13.c traced heap (guard pages, canaries, block table) and its re-implementation of the emit_byte / STORE_BUFFER producer protocol",
                     "tools/gen_Dest.py (regex translator)"]
